@@ -29,6 +29,10 @@ COST_INPUTS = [
     ('One-time Flat License Fees Etc', [0, 1, 20], 'cost'),
     ('Annual License Fees Etc', [0, 0.2, 3], 'cost'),
     ('Electricity Rate', [0.0, 0.05, 0.3, 1.0], 'cost-heat-only'),
+    # end-use equipment figures (chains pass through the parameter's declared default, 5 / 5 / 1)
+    ('Heat Pump Capital Cost', [0.5, 4.5, 5, 5.5, 40], 'cost-heat-pump'),
+    ('Absorption Chiller Capital Cost', [0.5, 4.5, 5, 5.5, 40], 'cost-chiller'),
+    ('Absorption Chiller O&M Cost', [0.05, 0.75, 1, 1.25, 10], 'cost-chiller'),
 ]
 
 
@@ -166,6 +170,10 @@ def run(ctx):
         name, vals, kind = COST_INPUTS[i % len(COST_INPUTS)] if ctx.quick or rng.random() < 0.5 else rng.choice(COST_INPUTS)
         if kind == 'cost-heat-only' and cell[1] == 1:
             cell = (cell[0], 2, 9, cell[3])
+        if kind == 'cost-heat-pump':
+            cell = (cell[0], 2, 6, cell[3])
+        if kind == 'cost-chiller':
+            cell = (cell[0], 2, 5, cell[3])
         base = gen.synth_case(rng, cell, costs=True, incentives=True, prices=True, addons=False, overpressure=False, sdac=False)
         if name not in ('Total Capital Cost', 'Total O&M Cost'):
             # the varied input must actually feed the totals
@@ -173,6 +181,10 @@ def run(ctx):
                 gen.cdel(base, 'Total Capital Cost')
             if 'O&M' in name or name.startswith('Water'):
                 gen.cdel(base, 'Total O&M Cost')
+        if kind in ('cost-heat-pump', 'cost-chiller'):
+            gen.cdel(base, 'Surface Plant Capital Cost')          # the equipment share is only added to a correlated plant cost
+            gen.cdel(base, 'Total Capital Cost')
+            gen.cdel(base, 'Total O&M Cost')
         if name.endswith('Adjustment Factor'):
             gen.cdel(base, name.replace(' Adjustment Factor', ''))
         if name == 'Injection Well Drilling and Completion Capital Cost Adjustment Factor':
